@@ -4,14 +4,16 @@ package main
 // returned by the real CreateCertificate, with no reference to the Lean model.
 //
 //   - a certificate is issued only if some authenticator succeeded (caller, >= 1 identity, no error)
-//     on an authenticating context;
+//     on an authenticating context; for a REAL authenticator (`reqa`) the identities are derived here,
+//     independently, from the credential it was given;
 //   - its SAN entries are exactly the authenticated identities, in order, each as one entry (IP
 //     literal -> iPAddress, otherwise the string itself) - or exactly the one impersonated identity,
 //     and then only if the caller is a trusted node account whose pod (matching UID and service
-//     account) runs on a node that also runs a pod of the impersonated namespace/service account;
-//   - its subject CommonName is empty or the first of those identities (never CSR content);
-//   - it is not a CA certificate, binds the CSR's public key, NotAfter <= signer NotAfter,
-//     lifetime <= max TTL (when default <= max is configured), and is not issued by an expired signer;
+//     account, not Failed) runs on a node that also runs a non-Failed pod of the impersonated
+//     namespace/service account - and the identity is that workload's (same trust domain as the caller's);
+//   - its subject is empty or just CN = the first of those identities (never CSR content);
+//   - it is not a CA certificate, is signed by the CA's signing certificate, binds the CSR's public key,
+//     NotAfter <= signer NotAfter, lifetime <= max TTL, and is not issued by an expired signer;
 //   - malformed input gives an error, never a crash, never a certificate.
 
 import (
@@ -22,6 +24,9 @@ import (
 	"strings"
 	"time"
 
+	"github.com/alecholmes/xfccparser"
+
+	"istio.io/istio/pkg/security"
 	"verifharness/internal/wire"
 )
 
@@ -40,8 +45,26 @@ func oracleSAN(id string) string {
 	return "D:" + wire.Enc(id)
 }
 
+// authed is the outcome of authentication as the property sees it.
+type authed struct {
+	ids  []string
+	kube security.KubernetesInfo
+}
+
+// spiffeParts splits spiffe://<td>/ns/<ns>/sa/<sa>.
+func spiffeParts(identity string) (td, ns, sa string, ok bool) {
+	if !strings.HasPrefix(identity, "spiffe://") {
+		return "", "", "", false
+	}
+	parts := strings.Split(strings.TrimPrefix(identity, "spiffe://"), "/")
+	if len(parts) != 5 || parts[1] != "ns" || parts[3] != "sa" {
+		return "", "", "", false
+	}
+	return parts[0], parts[2], parts[4], true
+}
+
 // mayImpersonate states the impersonation clause of the property on the pod world.
-func mayImpersonate(w *world, clusterTok string, k authOutcome, identity string) bool {
+func mayImpersonate(w *world, clusterTok string, k authed, identity string) bool {
 	if len(w.trusted) == 0 {
 		return false
 	}
@@ -51,14 +74,10 @@ func mayImpersonate(w *world, clusterTok string, k authOutcome, identity string)
 			trusted = true
 		}
 	}
-	if !trusted || !strings.HasPrefix(identity, "spiffe://") {
+	_, ns, sa, ok := spiffeParts(identity)
+	if !trusted || !ok {
 		return false
 	}
-	parts := strings.Split(strings.TrimPrefix(identity, "spiffe://"), "/")
-	if len(parts) != 5 || parts[1] != "ns" || parts[3] != "sa" {
-		return false
-	}
-	ns, sa := parts[2], parts[4]
 	if strings.Contains(identity, ",") {
 		return false // not an identity of any workload
 	}
@@ -73,6 +92,9 @@ func mayImpersonate(w *world, clusterTok string, k authOutcome, identity string)
 	node := ""
 	found := false
 	for _, p := range pods {
+		if p.failed {
+			continue
+		}
 		if p.name == k.kube.PodName && p.ns == k.kube.PodNamespace {
 			if p.uid != k.kube.PodUID || p.sa != k.kube.PodServiceAccount {
 				return false
@@ -84,11 +106,137 @@ func mayImpersonate(w *world, clusterTok string, k authOutcome, identity string)
 		return false
 	}
 	for _, p := range pods {
-		if p.ns == ns && p.sa == sa && p.node == node {
+		if !p.failed && p.ns == ns && p.sa == sa && p.node == node {
 			return true
 		}
 	}
 	return false
+}
+
+// foreignTrustDomain: the impersonated identity names a trust domain in which the caller itself has
+// no SPIFFE identity, i.e. it is not the identity of the workload running on the node.
+func foreignTrustDomain(k authed, identity string) bool {
+	td, _, _, ok := spiffeParts(identity)
+	if !ok {
+		return false
+	}
+	any := false
+	for _, id := range k.ids {
+		if ctd, _, _, ok := spiffeParts(id); ok {
+			any = true
+			if ctd == td {
+				return false
+			}
+		}
+	}
+	return any
+}
+
+// expectedFromCredential derives, independently of the code under test, who a real authenticator
+// must authenticate for a credential spec (kind first, transport grpc); ok=false: nobody.
+func expectedFromCredential(f []string, clusterTok string) (a authed, ok bool) {
+	switch f[0] {
+	case "oidc":
+		sub := wire.Dec(f[6])
+		parts := strings.Split(sub, ":")
+		if !tokenPresented(f[1], f[4]) || f[5] != "ok" || f[7] != "list" || f[6] == "absent" || len(parts) < 4 ||
+			!strings.HasPrefix(sub, "system:serviceaccount") {
+			return a, false
+		}
+		for _, x := range wire.DecList(f[8]) {
+			for _, y := range wire.DecList(f[3]) {
+				if x == y {
+					ok = true
+				}
+			}
+		}
+		a.ids = []string{"spiffe://" + sanitizeTD(wire.Dec(f[2])) + "/ns/" + parts[2] + "/sa/" + parts[3]}
+		return a, ok
+	case "kube":
+		rev := parseReview(f[10])
+		parts := strings.Split(rev.username, ":")
+		inGroup := false
+		for _, g := range rev.groups {
+			if g == "system:serviceaccounts" {
+				inGroup = true
+			}
+		}
+		if !tokenPresented(f[1], f[7]) || rev.apiErr || rev.errMsg != "" || !rev.authenticated || !inGroup || len(parts) != 4 ||
+			parts[2] == "" || parts[3] == "" {
+			return a, false
+		}
+		// the cluster the caller claims must be one istiod knows
+		claimed := ""
+		if c := wire.DecList(clusterTok); clusterTok != "-" && len(c) == 1 {
+			claimed = c[0]
+		}
+		primary := wire.Dec(f[3])
+		alias := ""
+		for _, al := range wire.DecList(f[4]) {
+			if k, v, _ := strings.Cut(al, "="); k == claimed {
+				alias = v
+			}
+		}
+		known := claimed == "" || claimed == primary || alias == primary
+		if f[5] != "nil" {
+			for _, r := range wire.DecList(f[5]) {
+				if r == claimed || (r == alias && alias != "") {
+					known = true
+				}
+			}
+		}
+		if !known {
+			return a, false
+		}
+		a.ids = []string{"spiffe://" + sanitizeTD(wire.Dec(f[2])) + "/ns/" + parts[2] + "/sa/" + parts[3]}
+		a.kube = security.KubernetesInfo{PodNamespace: parts[2], PodServiceAccount: parts[3]}
+		if v, ok := extraValues(rev.podName); ok && len(v) > 0 {
+			a.kube.PodName = v[0]
+		}
+		if v, ok := extraValues(rev.podUID); ok && len(v) > 0 {
+			a.kube.PodUID = v[0]
+		}
+		return a, true
+	case "xfcc":
+		hs := wire.DecList(f[4])
+		if f[4] == "-" || len(hs) == 0 || !peerTrusted(f[3], wire.DecList(f[2])) {
+			return a, false
+		}
+		certs, err := xfccparser.ParseXFCCHeader(hs[0])
+		if err != nil {
+			return a, false
+		}
+		for _, c := range certs {
+			a.ids = append(a.ids, c.URI...)
+			a.ids = append(a.ids, c.DNS...)
+			if c.Subject != nil {
+				a.ids = append(a.ids, c.Subject.CommonName)
+			}
+		}
+		return a, len(a.ids) > 0
+	case "cert":
+		if f[2] != "tls" || f[3] == "-" {
+			return a, false
+		}
+		chains := wire.DecList(f[3])
+		if len(chains) == 0 || chains[0] == "" {
+			return a, false
+		}
+		spec := wire.Dec(strings.Split(chains[0], "|")[0])
+		if !strings.HasPrefix(spec, "san:") {
+			return a, false
+		}
+		for _, e := range wire.DecList(spec[4:]) {
+			if len(e) >= 2 && e[0] == 'I' {
+				b, _ := hex.DecodeString(e[2:])
+				a.ids = append(a.ids, string(b))
+			} else if len(e) >= 2 {
+				a.ids = append(a.ids, e[2:])
+			}
+		}
+		return a, len(a.ids) > 0
+	}
+	return a, false
 }
 
 func oracleIssue(in, outp string) {
@@ -96,9 +244,13 @@ func oracleIssue(in, outp string) {
 	defer out.Close()
 	s := newIssueSUT()
 	verdict, open, idx := "", false, 0
+	known := "" // a violation of the known-finding class is reported only if nothing else fails
 	var cfg []string
 	flush := func() {
 		if open {
+			if verdict == "" {
+				verdict = known
+			}
 			if verdict == "" {
 				verdict = "OK"
 			}
@@ -111,65 +263,27 @@ func oracleIssue(in, outp string) {
 			verdict = fmt.Sprintf("FAIL %s op=%d %s", clause, idx, wire.Enc(detail))
 		}
 	}
-	for _, f := range wire.ReadLines(in) {
-		if f[0] == "case" {
-			flush()
-			s.apply(f)
-			verdict, open, idx = "", true, 0
-			continue
-		}
-		idx++
-		if f[0] != "req" {
-			if r := s.apply(f); r == "crash" {
-				fail("errors-not-crashes", strings.Join(f, " "))
-			}
-			if f[0] == "ca" {
-				cfg = f
-			}
-			continue
-		}
-		if !s.caOK || s.cur == nil {
-			continue
-		}
-		r, err := parseReq(f)
-		if err != nil {
-			continue
-		}
-		res := s.run(r)
-		if res.crash {
-			fail("errors-not-crashes", strings.Join(f, " "))
-			continue
-		}
-		if res.code != "" {
-			continue // an error is always allowed by the property
-		}
-		line := s.format(res)
+	// judge evaluates the property on one issued certificate.
+	judge := func(res issueResult, line string, who *authed, csr csrSpec, impTok, clusterTok string) {
 		if res.perr != nil {
 			fail("leaf-unparsable", line)
-			continue
-		}
-		// who authenticated?
-		var who *authOutcome
-		if r.xdsAuth && r.hasPeer && (r.tls || r.plaintext) {
-			for i := range r.outs {
-				if r.outs[i].kind == "ok" && len(r.outs[i].ids) > 0 {
-					who = &r.outs[i]
-					break
-				}
-			}
+			return
 		}
 		if who == nil {
 			fail("no-cert-without-authn", line)
-			continue
+			return
 		}
-		if !csrFormParses(r.csr.form) || r.csr.form == "badsig" {
+		if !csrFormParses(csr.form) || csr.form == "badsig" {
 			fail("malformed-csr-accepted", line)
 		}
 		expected := who.ids
-		if imp, ok := metaString(r.imp); ok && imp != "" {
-			if !mayImpersonate(s.cur, r.cluster, *who, imp) {
+		if imp, ok := metaString(impTok); ok && imp != "" {
+			if !mayImpersonate(s.cur, clusterTok, *who, imp) {
 				fail("impersonation-not-authorised", line)
-				continue
+				return
+			}
+			if foreignTrustDomain(*who, imp) && known == "" {
+				known = fmt.Sprintf("FAIL impersonation-foreign-trust-domain op=%d %s", idx, wire.Enc(line))
 			}
 			expected = []string{imp}
 		}
@@ -181,8 +295,13 @@ func oracleIssue(in, outp string) {
 		if l.sanCount != 1 || strings.Join(l.sans, ",") != strings.Join(want, ",") {
 			fail("san-exact", "want="+strings.Join(want, ",")+" "+line)
 		}
-		if l.cn != "" && (len(expected) == 0 || l.cn != expected[0]) {
-			fail("subject-cn-not-an-identity", line)
+		for _, a := range l.subject {
+			if !strings.HasPrefix(a, "2.5.4.3=") {
+				fail("subject-from-csr", line)
+			}
+		}
+		if len(l.subject) > 1 || (l.cn != "" && (len(expected) == 0 || l.cn != expected[0])) {
+			fail("subject-from-csr", line)
 		}
 		if l.isCA {
 			fail("never-ca", line)
@@ -196,7 +315,10 @@ func oracleIssue(in, outp string) {
 		signer := s.signerCert()
 		if signer == nil {
 			fail("issued-without-signer", line)
-			continue
+			return
+		}
+		if !s.signedBySigner(l) {
+			fail("not-signed-by-ca", line)
 		}
 		if l.notAfter.After(signer.NotAfter) {
 			fail("not-beyond-signer-expiry", line)
@@ -204,14 +326,84 @@ func oracleIssue(in, outp string) {
 		if !res.before.Before(signer.NotAfter) {
 			fail("expired-signer-issued", line)
 		}
-		var def, max int64
-		fmt.Sscan(cfg[5], &def)
+		var max int64
 		fmt.Sscan(cfg[6], &max)
-		if def <= max && l.notAfter.After(res.after.Add(time.Duration(max)*time.Second)) {
+		if l.notAfter.After(res.after.Add(time.Duration(max) * time.Second)) {
 			fail("lifetime-within-max", line)
 		}
 		if len(l.xext) != 0 {
 			fail("csr-extension-copied", line)
+		}
+	}
+	for _, f := range wire.ReadLines(in) {
+		if f[0] == "case" {
+			flush()
+			s.apply(f)
+			verdict, known, open, idx = "", "", true, 0
+			continue
+		}
+		idx++
+		switch f[0] {
+		case "req":
+			if !s.caOK || s.cur == nil {
+				continue
+			}
+			r, err := parseReq(f)
+			if err != nil {
+				continue
+			}
+			res := s.run(r)
+			if res.crash {
+				fail("errors-not-crashes", strings.Join(f, " "))
+				continue
+			}
+			if res.code != "" {
+				continue // an error is always allowed by the property
+			}
+			var who *authed
+			if r.xdsAuth && r.hasPeer && (r.tls || r.plaintext) {
+				for i := range r.outs {
+					if r.outs[i].kind == "ok" && len(r.outs[i].ids) > 0 {
+						who = &authed{ids: r.outs[i].ids, kube: r.outs[i].kube}
+						break
+					}
+				}
+			}
+			judge(res, s.format(res), who, r.csr, r.imp, r.cluster)
+		case "reqa":
+			if !s.caOK || s.cur == nil {
+				continue
+			}
+			a, err := parseReqA(f)
+			if err != nil {
+				continue
+			}
+			res, _, err := s.runA(a)
+			if err != nil {
+				continue
+			}
+			if res.crash {
+				if a.spec[0] == "xfcc" && !peerIsNetworkAddress(a.spec[3]) {
+					continue // not a transport address (recorded observation)
+				}
+				fail("errors-not-crashes", strings.Join(f, " "))
+				continue
+			}
+			if res.code != "" {
+				continue
+			}
+			var who *authed
+			if w, ok := expectedFromCredential(a.spec, a.req.cluster); ok {
+				who = &w
+			}
+			judge(res, s.format(res), who, a.req.csr, a.req.imp, a.req.cluster)
+		default:
+			if r := s.apply(f); r == "crash" {
+				fail("errors-not-crashes", strings.Join(f, " "))
+			}
+			if f[0] == "ca" {
+				cfg = f
+			}
 		}
 	}
 	flush()
